@@ -353,6 +353,90 @@ example : iqRoute [⟨.iq, "get", ⟨"urn:a", ""⟩⟩] "get"
     = .handler ⟨.iq, "get", ⟨"urn:a", ""⟩⟩ ⟨"urn:a", "x"⟩ [.stop ⟨"urn:a", "x"⟩, .chars "tail"] := by
   simp [iqRoute, iqDispatch, lookup, shapes, firstHit, isSpaceTok, List.dropLast, List.dropWhile]
 
+/-! ### the stanza's own attributes: type, id and addresses -/
+
+/-- **only the stanza's own attributes count**: the type under which a message / presence / IQ
+is dispatched, and the id and addresses `iqFallback` answers with, are those of the
+*unqualified* attributes of the start element; attributes in any namespace (a foreign one, the
+`xml` one, the stanza's own namespace bound to a prefix) may be added, removed or reordered
+among them without any effect -/
+theorem C14_own_attributes_only (k : Kind) (attrs : List Attr) :
+    stanzaHdr k attrs = stanzaHdr k (attrs.filter fun a => a.name.space == "") :=
+  stanzaHdr_filter k attrs
+
+/-- an own `type` attribute sets the type (verbatim for IQs and presences, one of the five
+declared types or `normal` for messages), whatever precedes it -/
+theorem C14_type_of_own_attribute (k : Kind) (attrs : List Attr) (a : Attr)
+    (h : ownAttr a "type" = true) :
+    (stanzaHdr k (attrs ++ [a])).typ = typeOfAttr k a.value := by
+  have ⟨h1, h2⟩ : a.name.space = "" ∧ a.name.loc = "type" := by simpa [ownAttr] using h
+  simp [stanzaHdr, List.foldl_append, hdrStep, h1, h2]
+
+/-- any other attribute — in particular a qualified one whose local name is `type` — leaves
+the type as it was -/
+theorem C14_type_unchanged (k : Kind) (attrs : List Attr) (a : Attr)
+    (h : ownAttr a "type" = false) :
+    (stanzaHdr k (attrs ++ [a])).typ = (stanzaHdr k attrs).typ := by
+  simp only [stanzaHdr, List.foldl_append, List.foldl_cons, List.foldl_nil]
+  exact hdrStep_typ_other k _ a h
+
+/-- without an own `type` attribute a message is `normal`, a presence is available (the empty
+type) and an IQ has the empty type -/
+theorem C14_type_absent (k : Kind) (attrs : List Attr) (h : ∀ a ∈ attrs, ownAttr a "type" = false) :
+    (stanzaHdr k attrs).typ = if k == .msg then "normal" else "" := by
+  have := foldl_hdrStep_typ k attrs (hdrInit k) h
+  simpa [stanzaHdr, hdrInit] using this
+
+/-- a presence with a foreign attribute named `type` is dispatched as an available presence -/
+example : (stanzaHdr .pres [⟨⟨"urn:ext", "type"⟩, "unavailable"⟩, ⟨⟨"", "id"⟩, "p1"⟩]).typ = "" := by decide
+example : (stanzaHdr .msg [⟨⟨"jabber:client", "type"⟩, "chat"⟩, ⟨⟨"", "type"⟩, "Chat"⟩]).typ = "normal" := by decide
+
+/-- **`msgRouter` / `presenceRouter`**: the whole dispatch of a stanza, from its start element,
+over a reader of either framing, is `forChildren` with the type of the stanza's own
+attributes — so by `C14_kind_type_isolated` only patterns of that type can run -/
+theorem C14_router_type (f : Framing) (tbl : Table) (k : Kind) (n : Name) (attrs : List Attr)
+    (body : List Tok) (cons : List Nat) :
+    stanzaRoute f tbl k (.start n attrs :: body) cons =
+      forChildren tbl k (stanzaHdr k (attrs.filter fun a => a.name.space == "")).typ
+        (.start n attrs :: body) cons := by
+  simp only [stanzaRoute, startAttrs, forChildrenF_eq]
+  rw [← stanzaHdr_filter]
+
+/-! ### the default reply -/
+
+/-- **every unhandled request is answered**: for an IQ whose type is not `result` / `error`,
+`iqFallback` writes one error reply carrying the request's id and addressed back to its sender —
+for *all* addresses: absent, different, or equal (an entity querying its own address) -/
+theorem C14_fallback_reply (h : Hdr) (h1 : h.typ ≠ "error") (h2 : h.typ ≠ "result") :
+    fallbackReply h = some ⟨"error", h.id, h.frm, h.to⟩ := by
+  simp [fallbackReply, h1, h2]
+
+/-- a reply is never answered -/
+theorem C14_fallback_silent (h : Hdr) (ht : h.typ = "error" ∨ h.typ = "result") :
+    fallbackReply h = none := by
+  rcases ht with ht | ht <;> simp [fallbackReply, ht]
+
+example : fallbackReply ⟨"get", "42", "romeo@example.com/orchard", "romeo@example.com/orchard"⟩
+    = some ⟨"error", "42", "romeo@example.com/orchard", "romeo@example.com/orchard"⟩ := by decide
+
+/-- **defaults, from the start element on**: an IQ whose first child element matches no
+pattern of its own type ends in the default of `C14_fallback_reply` / `C14_fallback_silent`
+computed from its own attributes; a matching pattern's handler runs instead -/
+theorem C14_iq_unhandled (tbl : Table) (n : Name) (attrs : List Attr) (pn : Name) (pas : List Attr)
+    (rest : List Tok) (e : Tok) (c : Nat)
+    (hno : lookup tbl .iq (stanzaHdr .iq attrs).typ pn = none) :
+    iqRouteA tbl (.start n attrs :: .start pn pas :: (rest ++ [e])) c =
+      match fallbackReply (stanzaHdr .iq (attrs.filter fun a => a.name.space == "")) with
+      | some r => .reply r
+      | none => .nothing := by
+  rw [← stanzaHdr_filter]
+  simp only [iqRouteA, startAttrs, C14_iq_payload, iqDispatch, hno]
+  by_cases ht : ((stanzaHdr .iq attrs).typ == "error" || (stanzaHdr .iq attrs).typ == "result") = true
+  · simp only [ht, if_true]
+    simp [fallbackReply, ht]
+  · simp only [ht]
+    simp [fallbackReply, ht]
+
 /-! ### tables probed on the real code -/
 
 set_option maxRecDepth 200000 in
@@ -371,5 +455,26 @@ set_option maxRecDepth 200000 in
 /-- **cascade order** (probe fact): for every kind and every subset of the four shapes of a
 name the real exported lookup returns the handler of the pattern the model's cascade returns -/
 theorem C14_probe_cascade : Generated.C14.cascadeTable = some cascadeTableModel := by decide
+
+set_option maxRecDepth 200000 in
+/-- **header** (probe fact): for every kind and every attribute list of length ≤ 2 over own and
+foreign `type` / `id` / `to` / `from` / `xml:lang` attributes, the real multiplexer dispatches the
+stanza under the type, and hands the handler a stanza value with the id and addresses, that the
+model reads from the start element -/
+theorem C14_probe_hdr : Generated.C14.hdrTable = some hdrTableModel := by decide
+
+set_option maxRecDepth 200000 in
+/-- **default reply** (probe fact): a real multiplexer without patterns, sent an IQ of every type
+× every pair of addresses (absent, different, equal) × with / without id, writes exactly the
+reply of the model (`iqRouteA`: header from the attributes, lookup, `fallbackReply`) or nothing -/
+theorem C14_probe_fallback : Generated.C14.fallbackTable = some fallbackTableModel := by decide
+
+set_option maxRecDepth 200000 in
+/-- the model's table is the specification: a reply exactly for the types other than `result` /
+`error`, with the request's id, to and from exchanged — in every row, whatever the addresses -/
+theorem C14_fallback_table_spec :
+    ∀ r ∈ fallbackTableModel,
+      r.reply = if r.req.typ == "error" || r.req.typ == "result" then none
+                else some ⟨"error", r.req.id, r.req.frm, r.req.to⟩ := by decide
 
 end XmppModel.Props.C14
